@@ -65,3 +65,13 @@ package actionlint
 //@ func (*RuleGlob).checkFilePathGlobs
 //@   props C17
 //@   at_call ValidateRefGlob: false
+
+// every value of a filter list is validated (empty values excepted: the parser reports them)
+//@ func (*RuleGlob).checkGitRefGlobs
+//@   loop "range filter.Values":
+//@     complete
+//@     body_calls (*RuleGlob).globErrors iff v.Value != ""
+//@ func (*RuleGlob).checkFilePathGlobs
+//@   loop "range filter.Values":
+//@     complete
+//@     body_calls (*RuleGlob).globErrors iff v.Value != ""
